@@ -5,3 +5,9 @@ int64_t vll_now_value; int vll_now_set;        /* a harness may pin what the clo
 int64_t _ZNSt6chrono3_V212system_clock3nowEv(void){ return vll_now_set ? vll_now_value : (int64_t)vnd_u64(); }
 int64_t _ZNSt6chrono3_V212steady_clock3nowEv(void){ return (int64_t)vnd_u64(); }
 int getpid(void){ return 4242; }                 /* a concrete process id (a symbolic one makes std::to_string produce a symbolic-length string) */
+/* sleeping / yielding = a scheduling point: the harness may run other "threads" there (vh_yield, optional) */
+#ifdef VLL_YIELD_HOOK
+void vh_yield(void);
+int nanosleep(const void* req, void* rem){ vh_yield(); return 0; }
+int sched_yield(void){ vh_yield(); return 0; }
+#endif
